@@ -119,6 +119,38 @@ pub fn run(input: &Value) -> Value {
         }
         out
       }
+      "module_size" => {
+        use deno_media_type::encoding::DecodedArcSourceDetailKind as K;
+        let kind = match op["kind"].as_u64().unwrap() { 0 => K::Unchanged, 1 => K::Changed, _ => K::OnlyUtf8Bom };
+        let text: std::sync::Arc<str> = "x".repeat(op["len"].as_u64().unwrap() as usize).into();
+        let spec = ModuleSpecifier::parse("file:///m.ts").unwrap();
+        let js = JsModule {
+          is_script: false, dependencies: Default::default(), maybe_cache_info: None, mtime: None,
+          source: ModuleTextSource { text: text.clone(), decoded_kind: kind }, maybe_types_dependency: None, media_type: MediaType::TypeScript,
+          specifier: spec.clone(), maybe_source_map_dependency: None,
+          #[cfg(feature = "fast_check")]
+          fast_check: None,
+        };
+        let json_m = JsonModule { specifier: spec, maybe_cache_info: None, source: ModuleTextSource { text, decoded_kind: kind }, mtime: None, media_type: MediaType::Json };
+        json!({"js": js.size(), "json": json_m.size()})
+      }
+      "charset_choice" => {
+        // UTF-16LE "a" without a BOM: decodes to "a" only if the header charset is honoured
+        let scheme = op["scheme"].as_str().unwrap();
+        let spec = ModuleSpecifier::parse(&match scheme { "file" => "file:///m.ts".to_string(), "https" | "http" => format!("{scheme}://h/m.ts"), s => format!("{s}:m.ts") }).unwrap();
+        let headers = if op["has_header"].as_bool().unwrap() {
+          Some(std::collections::HashMap::from([("content-type".to_string(), "application/typescript; charset=utf-16le".to_string())]))
+        } else { None };
+        let analyzer = crate::filldeps::EmptyAnalyzer;
+        let r = futures::executor::block_on(parse_module(ParseModuleOptions {
+          graph_kind: GraphKind::All, specifier: spec, maybe_headers: headers, mtime: None, content: std::sync::Arc::from(vec![0x61u8, 0x00u8]),
+          file_system: &source::NullFileSystem, jsr_url_provider: Default::default(), maybe_resolver: None, module_analyzer: &analyzer,
+        }));
+        match r {
+          Ok(m) => json!({"used": if m.source().map(|s| &**s == "a").unwrap_or(false) { "header-charset" } else { "detected-charset" }}),
+          Err(e) => json!({"error": e.to_string()}),
+        }
+      }
       o => json!({"error": format!("unknown op {o}")}),
     });
   }
